@@ -215,3 +215,73 @@ func execGrp(w []string) (res h.Result) {
 	res.Impl += " key=sk*G2"
 	return
 }
+
+// rgk <k>: the group key k·G2 (chosen by the generator for the byte pattern of its encoding) through the node's own path
+// from the key to the chain: decodePubKey (hook) → [id, c0..c3] as genGroup builds it (that glue is pinned textually by
+// group_key_glue_matches_model and run for real by grp) → the REAL registerGroup stage → REAL adaptor → recorded
+// transaction.  Oracle: the four words = go-ethereum bn256 ScalarBaseMult(k).Marshal() (the EVM precompile's encoding).
+func execRgk(w []string) (res h.Result) {
+	abis()
+	k := h.BigDec(w[1])
+	res.Class = "rgk"
+	res.Nontrivial = true
+	suite := suites.MustFind("bn256")
+	p := suite.G2().Point().Mul(suite.G2().Scalar().SetBytes(k.Bytes()), nil)
+	c, err := dkg.VerifDecodePubKey(p)
+	if err != nil {
+		res.Impl = "decode-err"
+		if new(big.Int).Mod(k, ethbn.Order).Sign() != 0 {
+			res.Oracle = "group-key-refused: decodePubKey returns an error for a finite point"
+		}
+		return
+	}
+	st, err := chaindouble.NewStack(1, 1, big.NewInt(1), 5000000, 20000000000, nil)
+	if err != nil {
+		res.Impl = "connect-failed " + h.OneLine(err.Error())
+		res.Oracle = "harness-connect-failed: " + h.OneLine(err.Error())
+		return
+	}
+	defer st.Close()
+	st.RPC[0].SetNonce(7)
+	st.RPC[0].ResetRawTxs()
+	ctx, cancel := context.WithTimeout(context.Background(), 30*time.Second)
+	defer cancel()
+	id := new(big.Int).Mod(k, new(big.Int).Lsh(big.NewInt(1), 256))
+	ch := make(chan [5]*big.Int, 1)
+	dataReturn := [5]*big.Int{id}
+	copy(dataReturn[1:], c[:])
+	ch <- dataReturn
+	var regErr error
+	for e := range dosnode.VerifRegisterGroup(ctx, st.Adaptor, ch) {
+		regErr = e
+	}
+	raws := st.RPC[0].RawTxs()
+	res.Impl = fmt.Sprintf("err=%v txs=%d", regErr != nil, len(raws))
+	if regErr != nil || len(raws) != 1 {
+		res.Oracle = fmt.Sprintf("group-key-not-registered-once: %d transactions, error %v", len(raws), regErr)
+		return
+	}
+	_, tx, args, name := describeTx(raws[0], st)
+	nums, _, _ := flatArgs(args)
+	if tx == nil || name != "registerGroupPubKey" || len(nums) != 5 {
+		res.Oracle = "group-key-wrong-call: " + name
+		return
+	}
+	var got []byte
+	for _, v := range nums[1:] {
+		b := v.Bytes()
+		if len(b) > 32 {
+			b = b[len(b)-32:]
+		}
+		got = append(got, make([]byte, 32-len(b))...)
+		got = append(got, b...)
+	}
+	want := new(ethbn.G2).ScalarBaseMult(k).Marshal()
+	res.Impl += fmt.Sprintf(" id=%s", nums[0])
+	if nums[0].Cmp(id) != 0 {
+		res.Oracle = "group-id-differs: " + nums[0].String()
+	} else if !bytes.Equal(got, want) {
+		res.Oracle = fmt.Sprintf("registered-group-key-is-not-sk-G2: k = %s: registered words %x, EVM encoding of k·G2 is %x", k, got, want)
+	}
+	return
+}
